@@ -1,5 +1,5 @@
 """Source of truth for MANIFEST.json (run tools/gen_manifest.py after editing)."""
-SOURCE_COMMITS = ["472f3d5", "0f80483", "29ef46c", "c52c224", "5831e59", "4bfa3bb"]   # all "fix:" commits (no hooks)
+SOURCE_COMMITS = ["472f3d5", "0f80483", "29ef46c", "c52c224", "5831e59", "4bfa3bb", "c9eab00", "798134f", "ff9c3a5", "316695c"]   # all "fix:" commits (no hooks)
 NOTES = ("Static analysis only. Every check parses /repo's working tree with Python's ast module (and re._parser for "
          "regular-expression syntax trees) and never imports or runs pycparser. Exit 0 ok / 1 VIOLATION / 2 ANALYSIS-ERROR "
          "(fail closed). Known genuine defects are listed in known_findings.json and printed as KNOWN-FINDING lines.")
@@ -14,10 +14,51 @@ ENGINES = [
      "kind_free_text": "regex syntax trees -> ordered Thompson NFA -> leftmost-first DFA (model of re backtracking), tokeniser automaton, reference C99 lexical languages, EDA ambiguity analysis"},
     {"name": "E1 rdmodel/grammar", "path": "sa/rdmodel.py, sa/grammar.py, sa/e1.py", "serves_properties": ["C01", "C06", "C16", "C18"],
      "kind_free_text": "abstract interpreter of the recursive-descent parser over the token-stream-effect domain: per-production event automata, FIRST/FIRST2, Dyck balance, progress, memoised recogniser"},
+    {"name": "E1b wiring", "path": "sa/wiring.py, sa/wirecheck.py, sa/wiring_ref.json", "serves_properties": ["C02", "C03", "C04", "C05", "C11"],
+     "kind_free_text": "flow-sensitive reaching definitions over the structured AST: provenance of every constructor argument, return and list append; compared with a reviewed reference in rename-invariant normal form"},
+    {"name": "reference grammar", "path": "sa/refgrammar.py", "serves_properties": ["C01"],
+     "kind_free_text": "independent EBNF transcription of ISO C99 Annex A.2 (+ documented C11), derivation-covering sentence generator"},
     {"name": "E4 astspec", "path": "sa/astspec.py", "serves_properties": ["C14", "C15"],
      "kind_free_text": "AST specification reader and node-class shape extractor"},
 ]
 CHECKS = [
+    {"id": "C01", "engine": "E0+E1+E2+refgrammar", "level": "other",
+     "text": "Grammar conformance on the model extracted from the parser source by abstract interpretation: exact vocabulary and token-type closure; FIRST-based guard adequacy at every decision point of every production clone "
+             "(no token a called production can start with is rejected by the guards on all paths); inclusion of an independently transcribed ISO C99 Annex A.2 (+ documented C11) grammar in the extracted model, decided on a "
+             "derivation-covering set of ~30k (thorough ~46k) reference sentences by a memoised recogniser over the extracted automata with exact mark/reset semantics.",
+     "design_ref": "DESIGN.md section 3, C01 and Appendix A",
+     "note": "Inclusion is decided on the covering sentence set, not for all sentences (CFG inclusion is undecidable); semantic predicates are free choices, so the model may over-accept but never under-accepts; agreement with gcc is not decided; the reference EBNF is a trusted reading of ISO C.",
+     "technique": "grammar extraction by abstract interpretation + FIRST/LL guard analysis + bounded reference-grammar inclusion with a recogniser over the extracted automata"},
+    {"id": "C02", "engine": "E0+E1+E1b", "level": "other",
+     "text": "The folded precedence table is compared with C99's ten levels on all operator pairs; the precedence-climbing loop is recognised relationally (strict comparisons = left associativity, recursion arguments); "
+             "every constructor site, return and list append of the 18 expression productions is compared, in rename-invariant def-use normal form, with a reviewed reference that encodes which operand is parsed at which grammar level.",
+     "design_ref": "DESIGN.md section 3, C02 and Appendix B",
+     "note": "sa/wiring_ref.json is a reviewed snapshot (record by record against C99 6.5); a refactoring that moves constructor calls into new helpers needs a re-review (reported as ANALYSIS-ERROR, not as a pass). Run-time tree equality is not executed.",
+     "technique": "constant folding + relational schema recognition + flow-sensitive def-use (reaching definitions) wiring comparison"},
+    {"id": "C03", "engine": "E1+E1b", "level": "other",
+     "text": "Def-use wiring of all declaration / declarator / struct / enum / initialiser productions and declaration builders against the reviewed reference (pointer nesting, suffix order, inside-out call protocol, field-from-same-named-list), "
+             "plus per-branch rules on the two specifier loops (kind matches token table, append=True, saw_type recorded) and their sibling agreement. The splice loops are not proved for arbitrary derivation sequences.",
+     "design_ref": "DESIGN.md section 3, C03",
+     "note": "Partial: heap-shape correctness of _type_modify_decl / _fix_decl_name_type / fix_atomic_specifiers for unbounded chains would need shape analysis (not claimed).",
+     "technique": "flow-sensitive def-use wiring comparison + sibling cross-check of the specifier loops"},
+    {"id": "C04", "engine": "E0+E1b", "level": "other",
+     "text": "Scope typestate (who may push/pop, callbacks fire exactly on braces), innermost-first lookup rule, identifier classification order in the lexer, and the registration table (which call site registers which names as typedef / identifier, "
+             "parameters only when a body follows) decided structurally. The timing clause (look-ahead tokens classified before a declaration is reduced) is not decided.",
+     "design_ref": "DESIGN.md section 3, C04",
+     "note": "Partial by design: run-time interleaving of lexing and reduction is out of reach of a static argument.",
+     "technique": "typestate / who-may-call rules + structural loop rule + def-use wiring of registration sites"},
+    {"id": "C05", "engine": "E1+E1b", "level": "other",
+     "text": "Def-use wiring of the 19 statement-level productions and of the switch-regrouping transform against the reviewed reference (else binds to the nearest if, single-statement bodies, for-clauses in order, block items appended in source order, "
+             "one Pragma per directive from its own token); Case/Default class tests agree; per-path append count of the regrouping loop is exactly one.",
+     "design_ref": "DESIGN.md section 3, C05",
+     "note": "Run-time tree equality is not executed; sa/wiring_ref.json reviewed against C99 6.8.",
+     "technique": "flow-sensitive def-use wiring comparison + linearity (append-count) analysis"},
+    {"id": "C11", "engine": "E1+E1b", "level": "other",
+     "text": "Every node of the classes named by the property is built with a non-None coordinate; the provenance of every coord argument (105 sites) and of every error location equals the reviewed reference (spelling token for names/constants, a token of the construct otherwise); "
+             "line, column and file are stamped on tokens at lex time only in _make_token and _tok_coord uses exactly those.",
+     "design_ref": "DESIGN.md section 3, C11",
+     "note": "Equality with an independent re-lexing of concrete inputs is not executed; lexer position bookkeeping itself is C09.",
+     "technique": "def-use provenance of coordinate arguments + structural rules on token stamping"},
     {"id": "C06", "engine": "E0+E1+E2", "level": "other",
      "text": "Exception-escape analysis over the 137 functions reachable from CParser.parse: every raise is the ParseError channel or proved dead (match exhaustiveness; finite "
              "abstract evaluation of _parse_constant over the tokeniser model's suffix windows); every assert is discharged automatically by the grammar model or by a named, recorded argument; "
